@@ -15,8 +15,8 @@ PROPS["C04"] = {
     "level_text": "Generated-input search: thousands of generated key sets per run (explicit, adversarial single-bucket, boundary-size, unsupported) are built with the three real builders and every inserted key is looked up in the sealed file against the generating map; byte-identical rebuild and permuted-order rebuild are compared. Exploration level: finds violations, does not prove absence.",
     "level_note": "Trusted: sha-256 derivation of keys/values from drawn seeds, the scratch file system, rapid's PRNG. Mining failure on over-full buckets (>11000 keys) is accepted as an allowed error; absent-key behaviour is judged by C03, not here.",
     "rule": ("rapid-generated key sets (explicit keys 1..300 of 0..64 bytes + shape classes: adversarial single-bucket sets, "
-             "keys of 255..65535 bytes, keys >= 65536 bytes, value sizes 1..255, declared count below/above real, duplicate key, "
-             "0..255 metadata pairs; bulk unit: +9999..60000 derived keys around the 10000-per-bucket boundary) for the three formats; "
+             "keys of 255..65535 bytes, keys >= 65536 bytes, value sizes 1..255, declared count below/above real, duplicate key (same or another value; among many keys, among 1..3, or alone in its bucket under an over-declared count), "
+             "a birthday-searched pair of distinct keys colliding in hash domain 0, 0..255 metadata pairs including the largest legal metadata (255 pairs of 254/255 + 253..255 bytes); bulk unit: +9999..60000 derived keys around the 10000-per-bucket boundary) for the three formats; "
              "oracle = the generating map: Seal==nil => every key looks up its value, two identical builds are byte-identical, permuted "
              "insertion order answers identically; unsupported input must give an error (no panic, no silent loss). "
              "non-trivial = >=3 keys or >=2 buckets; distinct = distinct generated case (hash of the case)"),
@@ -31,7 +31,7 @@ PROPS["C04"] = {
 
 PROPS["C05"] = {
     "technique": "property-based testing (rapid): generated signature multisets vs set-of-(prefix,hash) model, three reader kinds, two file formats",
-    "level_text": "Generated-input search: signature multisets are generated per two-byte prefix with bucket populations 0,1,2,3,..,2^k-1,2^k,2^k+1, duplicates, edge prefixes, 1..1500 prefixes and three insertion orders; after Seal every added signature must be present through mmap, os.File and in-memory readers, Writer.Has must agree with the sealed file, and a positive answer on a probe requires a (prefix,hash) of the model. Exploration level.",
+    "level_text": "Generated-input search: signature multisets are generated per two-byte prefix with bucket populations 0,1,2,3,..,2^k-1,2^k,2^k+1, duplicates, edge prefixes, 1..1500 prefixes, one prefix filled to 15 999..32 001 entries (around the writer's 16 000-entry reservation) with populated neighbours, and three insertion orders; after Seal every added signature must be present through mmap, os.File and in-memory readers, Writer.Has must agree with the sealed file, and a positive answer on a probe requires a (prefix,hash) of the model. Exploration level.",
     "level_note": "Trusted: sha-256 derivation of signatures from drawn seeds; the package's exported Hash() is used only for the 'present only if hash-equal' direction. Truncated/corrupt files are judged by C12/C13.",
     "rule": ("rapid draws a shape class, a seed, per-prefix bucket specs (prefix, population from {0..9,15..17,31..33,..,255..257,1000}, duplicates), insertion order and metadata size; "
              "signatures are derived from the seed; 200 absent probes per case, half forced into populated prefixes. non-trivial = some bucket with >=3 distinct hashes and >=1 duplicate; distinct by case hash"),
@@ -59,7 +59,7 @@ PROPS["C01"] = {
 
 PROPS["C18"] = {
     "technique": "small-scope exhaustive schedule enumeration (harness-owned gates) + rapid-sampled larger schedules; oracle = outcome vector",
-    "level_text": "Every outcome vector in {success,error,not-found}^n, every concurrency limit and every completion order feasible for that limit is enumerated (n<=4 quick, n<=6 thorough) by gating each job on its own channel, plus rapid samples for n up to 9; the result must be a successful job's value when one exists, else the complete error list; the call must return and leave no goroutine behind. Exploration level with an exhaustive small scope.",
+    "level_text": "Every outcome vector in {success,error,not-found}^n, every concurrency limit and every completion order feasible for that limit is enumerated (n<=4 quick, n<=6 thorough) by gating each job on its own channel, plus rapid samples for n up to 9; the result must be a successful job's value when one exists, else the complete error list; the call must return and leave no goroutine behind. Unit epoch-search applies the same oracle to the caller, MultiEpoch.findEpochNumberFromSignature: 2..5 of five loaded epochs, search concurrency -1..16, each epoch's signature-existence index replaced by a gated stand-in answering present / absent / I/O error in a harness-owned completion order (the archiving epoch keeps its real sig-to-cid index); the search must name the archiving epoch whenever one exists, else fail (not-found exactly when every epoch answered absent). Exploration level with an exhaustive small scope.",
     "level_note": "The harness controls start/finish of every job but not the instant at which FirstSuccess reads a result, so two completions may be observed in swapped order; the oracle is order-independent, so this cannot cause a false alarm. Cancelled request contexts are outside the property.",
     "rule": ("enumeration: outcome vectors x limits {-1,1..n} x DFS over completion orders where at most `limit` started jobs are in flight; sampled unit: rapid draws n in 4..9, outcomes, limit and a feasible order. "
              "non-trivial = >=2 jobs with mixed outcomes where the first job to complete is not a success; distinct by (outcomes, limit, order)"),
@@ -109,7 +109,7 @@ PROPS["C16"] = {
 
 PROPS["C17"] = {
     "technique": "model-based property testing (rapid operation sequences + exhaustive short histories) of the range cache against the file bytes, with injected fetch failures; concurrent replay; end-to-end loopback HTTP reader",
-    "level_text": "Histories of GetRange/SetRange/expiry over files of 8..4096 bytes (valid, nested, overlapping, adjacent, zero-length, out-of-range and negative ranges) are generated with fetch failures injected at chosen reads (optionally scribbling into the buffer first); every successful read must equal the file bytes, a read fails only when invalid or when its own fetch failed, and after a failed fetch the same read returns the true bytes. All histories of length <=2 (quick) / <=3 (thorough) over a 6-byte file are enumerated. 4-16 goroutines replay generated read lists with poisoned ranges and concurrent expiry. The HTTP reader is driven against a loopback server that answers 500 / 500 with a long body / ignores Range on command. Exploration level.",
+    "level_text": "Histories of GetRange/SetRange/expiry over files of 8..4096 bytes (valid, nested, overlapping, adjacent, zero-length, out-of-range and negative ranges) are generated with fetch failures injected at chosen reads (optionally scribbling into the buffer first; failing as (0, error), (n/2, io.EOF) - a truncated remote -, (0, io.EOF), (n/2, io.ErrUnexpectedEOF) or (0, deadline exceeded)); every successful read must equal the file bytes, a read fails only when invalid or when its own fetch failed, and after a failed fetch the same read returns the true bytes. All histories of length <=2 (quick) / <=3 (thorough) over a 6-byte file are enumerated. 4-16 goroutines replay generated read lists with poisoned ranges and concurrent expiry, or all hammer the same three ranges (concurrent cache hits); a fatal runtime error of the process is attributed to the recorded case. The HTTP reader is driven against a loopback server that answers 500 / 500 with a long body / ignores Range on command. Exploration level.",
     "level_note": "The remote is the harness's own fetcher/server; it serves every in-range request unless a failure is injected. Goroutine schedules are perturbed, not enumerated. OccupiedSpace accounting is not part of the property and not judged.",
     "rule": ("rapid draws file size and 1..60 operations with range classes; non-trivial = history with a read served from a cached superset, a SetRange replacing cached subsets, or an injected failure; exhaustive unit enumerates all histories up to the stated length; distinct by case hash"),
     "assumptions": ["time.Since(entry) > -1h is always true (used to force expiry)"],
@@ -150,7 +150,7 @@ GSFA_FASTPOLL = [{"file": "gsfa/gsfa-write.go", "rules": [{"old": "1 * time.Seco
 
 PROPS["C07"] = {
     "technique": "small-scope exhaustive enumeration of per-epoch histories x (limit,before,until) x slot windows against a list-slicing model; rapid-generated larger histories; handler-level JSON-RPC on generated epochs, each request repeated",
-    "level_text": "Reader level: address indexes for 1..3 epochs x 0..4 entries (plus a noise address) are written with the real writer; every limit in 1..N+1 and every before/until drawn from {none} u history is evaluated through GsfaReaderMultiepoch.GetBeforeUntil and compared with the contiguous slice of the newest-first history; every slot window over the history slots +-1 and the epoch edges is evaluated through GetBeforeUntilSlot. Handler level: generated epochs with real `index gsfa` output are loaded in every subset and getSignaturesForAddress is called with generated limit/before/until, each request 8 times, comparing the JSON array (signature, slot, blockTime, err) in order. Exploration level with an exhaustive small scope.",
+    "level_text": "Reader level: address indexes for 1..3 epochs x 0..4 entries (plus a noise address) are written with the real writer; every limit in 1..N+1 and every before/until drawn from {none} u history is evaluated through GsfaReaderMultiepoch.GetBeforeUntil and compared with the contiguous slice of the newest-first history; every slot window over the history slots +-1 and the epoch edges is evaluated through GetBeforeUntilSlot; per epoch the entries lie in the middle of the epoch, start on its first slot, or end on its last slot. Handler level: generated epochs with real `index gsfa` output are loaded in every subset and getSignaturesForAddress is called with generated limit/before/until, each request 8 times, comparing the JSON array (signature, slot, blockTime, err) in order. Exploration level with an exhaustive small scope.",
     "level_note": "before/until signatures are drawn from the address's own history (an unknown `before` yields an empty result in the implementation; the property does not specify it and it is not judged). The reader-level units use a build whose only change is the writer's poll interval (1 s -> 5 ms) so that thousands of small indexes can be written.",
     "rule": ("exhaustive unit: epoch sets {5},{5,6},{4,6},{3,4,5},{0,1,7} x 0..4 entries per epoch; non-trivial = history spanning >=2 epochs and an expected slice that is a strict non-empty sub-range; distinct by (history, limit, before, until) / (history, window)"),
     "assumptions": ["the real gsfa writer is correct for < 1000 entries per address (judged by C06)"],
@@ -174,9 +174,9 @@ PROPS["C15"] = {
 
 PROPS["C02"] = {
     "technique": "property-based testing (rapid): generated epochs loaded in-process, every archived slot and signature queried over JSON-RPC (4 encodings) and gRPC (unary + Get stream) and compared with the generator's ground truth",
-    "level_text": "1..3 generated epochs (including epoch 0 with the mainnet genesis archive) are indexed with the real `index all`, loaded with NewEpochFromConfig into a MultiEpoch with search concurrency -1/0/1/2/NumCPU, and every block and every transaction is fetched through newMultiEpochHandler (getBlock, getTransaction, getBlockTime; encodings base58, base64, base64+zstd, json, default) and through the gRPC methods GetBlock, GetTransaction, GetBlockTime and the bidirectional Get stream. Slot, parent slot, block time, block height, blockhash, previous blockhash, transaction order, transaction bytes (decoded from the requested encoding), metadata fields / raw metadata bytes and rewards are compared with what the generator wrote. Exploration level.",
+    "level_text": "1..6 generated epochs (including epoch 0 with the mainnet genesis archive; up to 6 so that the epoch count exceeds twice the search concurrency) are indexed with the real `index all`, loaded with NewEpochFromConfig into a MultiEpoch with search concurrency -1/0/1/2/NumCPU, and every block and every transaction is fetched through newMultiEpochHandler (getBlock, getTransaction, getBlockTime; encodings base58, base64, base64+zstd, json, default) and through the gRPC methods GetBlock, GetTransaction, GetBlockTime and the bidirectional Get stream. Slot, parent slot, block time, block height, blockhash, previous blockhash, transaction order, transaction bytes (decoded from the requested encoding), metadata fields / raw metadata bytes and rewards are compared with what the generator wrote. Every request runs under a hang detector: a request whose goroutine is parked on a channel / lock after 90 s is a violation (reported with its stack), one that is still running ends the run inconclusive. Exploration level.",
     "level_note": "Blocks of this property have >= 1 entry; epochs without recorded transaction positions are compared as sets; slot 0 of epoch 0 (genesis special case) is compared on slot/transactions/blockhash only; jsonParsed needs the Rust FFI and is not covered. Trusted: solana-go, protobuf, zstd, reference IPLD encoder.",
-    "rule": ("rapid draws 1..3 epoch specs (distinct epoch numbers), concurrency and an encoding rotation; every block and transaction of every loaded epoch is queried. non-trivial = >=2 epochs loaded and (a block with >=2 transactions over >=2 entries or a transaction with multi-frame metadata); distinct by case hash"),
+    "rule": ("rapid draws 1..3 or 3..6 epoch specs (distinct epoch numbers; required class epochs>2*concurrency), concurrency and an encoding rotation; every block and transaction of every loaded epoch is queried. non-trivial = >=2 epochs loaded and (a block with >=2 transactions over >=2 entries or a transaction with multi-frame metadata); distinct by case hash"),
     "assumptions": ["the handler is called in-process through fasthttp.RequestCtx.Init (no network stack)"],
     "units": [
         {"name": "rpc", "pkg": ".", "run": "TestVfC02", "checks": T(48, 1600), "shards": T(8, 16), "timeout": T(900, 3000), "env": ROOT_ENV},
@@ -185,7 +185,7 @@ PROPS["C02"] = {
 
 PROPS["C03"] = {
     "technique": "property-based testing with directed collision search (rapid): absent keys whose 24-bit in-bucket hash equals that of a stored key are found with the index's own exported hash functions and queried through JSON-RPC/gRPC/Epoch",
-    "level_text": "Generated epochs with 150..600 extra blocks are indexed (including the address index) and loaded alone or together. For every epoch: every skipped slot around the archived blocks, every absent slot of the epoch whose in-bucket hash collides with a stored slot (up to 12), absent signatures / CIDs / addresses searched until they collide with a stored key, a plainly absent signature and address, and slots/signatures of an epoch that is built but not loaded. The answer must be not-found / epoch-not-available / null / empty - never a block of another slot, a transaction with another first signature, bytes of another CID or signatures of transactions that do not mention the address. Exploration level.",
+    "level_text": "Generated epochs with 150..600 extra blocks are indexed (including the address index) and loaded alone or together. For every epoch: every skipped slot around the archived blocks, every absent slot of the epoch whose in-bucket hash collides with a stored slot (up to 12), absent signatures / CIDs / addresses searched until they collide with a stored key, a plainly absent signature and address, and slots/signatures of an epoch that is built but not loaded; every colliding absent CID is also fetched by four goroutines while four others fetch the stored object it collides with (300 rounds). The answer must be not-found / epoch-not-available / null / empty - never a block of another slot, a transaction with another first signature, bytes of another CID or signatures of transactions that do not mention the address. Exploration level.",
     "level_note": "The index's exported DB.GetBucket / Bucket.Load / BucketHeader.Hash are used to find colliding keys (search aid, not oracle). Open finding (see known_findings.json): colliding absent addresses in the key-less pubkey index - excluded by construction and reported as KNOWN-FINDING.",
     "rule": ("rapid draws 1..3 epoch specs (+150..600 bulk blocks each), a probe seed and an unloaded epoch; non-trivial = at least one absent key that collides with a stored key in the real index was queried; distinct by case hash; the per-class numbers of colliding keys are in class_counts (n-colliding-*)"),
     "assumptions": ["sha-256/xxhash behave as random functions for the collision search"],
@@ -196,7 +196,7 @@ PROPS["C03"] = {
 
 PROPS["C10"] = {
     "technique": "property-based fault injection over configurations (rapid): generated archives A, B (other epoch), A' (same epoch, other root); every single and pairwise substitution of index files and cross-role swaps, load result compared with an identity-field oracle",
-    "level_text": "Three generated archives are indexed (all five `index all` files + the address index). The configuration of A is loaded with every index role taken from B or A' (singly and in all pairs), with every index file placed in every other role, and with all indexes of A' over A's CAR. NewEpochFromConfig must fail exactly when a substituted file has the wrong kind/format, records another epoch than the configuration, or the root-bearing indexes do not all record the same root; it must succeed otherwise, and epoch/root/kind written at build time must be read back. With a foreign CAR under self-consistent indexes every CID-addressed fetch must fail or return bytes whose hash matches the CID. Exploration level.",
+    "level_text": "Three generated archives are indexed (all five `index all` files + the address index). The configuration of A is loaded with every index role taken from B or A' (singly and in all pairs), with every index file placed in every other role, with all indexes of A' over A's CAR, with A's own files in which one identity field (epoch / root) was replaced, and with B's files whose epoch field was forged to the configured epoch. NewEpochFromConfig must fail exactly when a substituted file has the wrong kind/format, records another epoch than the configuration, or the root-bearing indexes do not all record the same root; it must succeed otherwise, and epoch/root/kind written at build time must be read back. With a foreign CAR under self-consistent indexes (A' and A swapped, and a CAR with exactly A's section layout but altered objects stored under their new CIDs) every CID-addressed fetch, repeated three times, must fail or return bytes whose hash matches the CID. Exploration level.",
     "level_note": "slot-to-blocktime carries only the epoch, so a block-time file of A' is undetectable by design and is expected to load. The Filecoin/lassie mode needs the network and is not covered. The inner pubkey index of the gsfa directory is not swapped separately.",
     "rule": ("rapid draws three epoch specs; per case ~140 configurations are derived deterministically (6 roles x {B, A'} singles, 20 cross-role swaps, 60 pairs, all-A'); non-trivial = case in which at least one configuration must be rejected; distinct by case hash; class_counts reports configurations-tried and foreign-car-cid-fetches"),
     "assumptions": ["identity oracle derived from the property statement (kind, epoch, root)"],
@@ -207,7 +207,7 @@ PROPS["C10"] = {
 
 PROPS["C13"] = {
     "technique": "fault injection by truncation + metamorphic property testing (rapid): every file kind built by the real writers from a generated epoch is cut at every offset (small files) or at structure boundaries +-2 plus random offsets; lookups on the truncated copy are compared with the complete file",
-    "level_text": "For each generated epoch the real `index all` and `index gsfa` outputs are truncated: the four compact-index kinds, sig-exists (current and legacy format), slot-to-blocktime, the gsfa linked log / manifest / pubkey index, and the CAR. Readers are opened over the truncated bytes (in-memory ReaderAt, or files for the gsfa directory and the epoch level) and every stored key (<=200 per file) is looked up: the answer must equal the complete file's answer or be an error that is not `not found` (no `false`, no empty list, no other value). The same is checked through a loaded Epoch / the JSON-RPC handler with one truncated file. A recording ReaderAt determines for each (cut, key) whether the cut lies before the bytes the complete lookup reads. Exploration level; evidence counts individual lookups.",
+    "level_text": "For each generated epoch the real `index all` and `index gsfa` outputs are truncated: the four compact-index kinds, sig-exists (current and legacy format), slot-to-blocktime, the gsfa linked log / manifest / pubkey index, and the CAR. Some epochs carry their last block on the last slot of the epoch (its values are then the final bytes of the per-slot files). Readers are opened over the truncated bytes (in-memory ReaderAt, or files for the gsfa directory and the epoch level) and every stored key (<=200 per file) is looked up: the answer must equal the complete file's answer or be an error that is not `not found` (no `false`, no empty list, no other value). The same is checked through a loaded Epoch / the JSON-RPC handler with one truncated file. A recording ReaderAt determines for each (cut, key) whether the cut lies before the bytes the complete lookup reads. Exploration level; evidence counts individual lookups.",
     "level_note": "A crash (panic) on a truncated file is loud and is counted separately (class n:*-panic); crashes are judged by C12, silent wrong answers here. evaluations = generated epochs + individual (file, cut, key) lookups; distinct_nontrivial counts generated epochs with at least one affected lookup, the number of affected lookups is class n:nontrivial.",
     "rule": ("rapid draws an epoch spec and a cut seed; cuts: every offset for files <=4 KiB, else header/table/bucket boundaries +-2 and 60..200 random offsets; keys: every stored key up to 200 per file. non-trivial lookup = the cut lies before the highest byte the complete-file lookup of that key reads"),
     "assumptions": ["reads of a truncated file behave like reads of bytes.Reader / os.File at EOF (short read + io.EOF)"],
@@ -218,7 +218,7 @@ PROPS["C13"] = {
 
 PROPS["C08"] = {
     "technique": "grammar-based property testing (rapid) of JSON-RPC bodies / HTTP paths and of gRPC message shapes against in-process servers with 0, 1 and 3 loaded epochs; thorough: Go native coverage-guided fuzzing of the HTTP body",
-    "level_text": "Requests are generated from a grammar: the 8 JSON-RPC methods with params missing / null / object / wrong arity / wrong types / huge, negative and fractional numbers / malformed base58 / unknown options, batch arrays, truncated and non-JSON bodies, oversized bodies, GET/PUT/DELETE, /health, /metrics, /api/v1/slot-to-cid/<x>, /api/v1/sig-to-cid/<x>; gRPC GetBlock/GetTransaction/GetBlockTime/GetVersion/StreamBlocks/StreamTransactions messages with absent optional fields, malformed account strings, signatures of wrong length, ranges across and outside epochs, start > end, and sequences on the bidirectional Get stream. Each request runs against servers built once per process (no epochs, one epoch, three epochs with address indexes); a panic, a missing response or a failing follow-up probe request is a violation. A crash in a goroutine spawned by a handler kills the process: the driver attributes it to the request recorded before the call. Exploration level.",
+    "level_text": "Requests are generated from a grammar: the 8 JSON-RPC methods with params missing / null / object / wrong arity / wrong types / huge, negative and fractional numbers / malformed base58 / unknown options / an existing key with each documented option member null, ill-typed or at a boundary, batch arrays, truncated and non-JSON bodies, oversized bodies, GET/PUT/DELETE, /health, /metrics, /api/v1/slot-to-cid/<x>, /api/v1/sig-to-cid/<x>; gRPC GetBlock/GetTransaction/GetBlockTime/GetVersion/StreamBlocks/StreamTransactions messages with absent optional fields, malformed account strings, signatures of wrong length, ranges across and outside epochs, start > end, and sequences on the bidirectional Get stream. Each request runs against servers built once per process (no epochs, one epoch, three epochs with address indexes); a panic, a missing response or a failing follow-up probe request is a violation. A crash in a goroutine spawned by a handler kills the process: the driver attributes it to the request recorded before the call. Exploration level.",
     "level_note": "Slot ranges are kept below ~433000 slots (a request with an end slot near 2^64 keeps StreamBlocks scanning until the client cancels; that is not a crash and is not judged). Crashes that need a corrupted archive belong to C12. The proxy path is exercised only with no proxy configured.",
     "rule": ("rapid draws protocol, server (0/1/3 epochs), shape class and values from pools of real slots/signatures/addresses plus hostile constants; non-trivial = request other than a plain valid call (ill-typed/missing argument, hostile path, gRPC message); distinct by request hash"),
     "assumptions": ["handlers are invoked in-process (fasthttp.RequestCtx.Init, fake grpc.ServerStream); the network stack and the generated gRPC glue are not exercised"],
@@ -230,8 +230,8 @@ PROPS["C08"] = {
 
 PROPS["C19"] = {
     "technique": "differential property testing (rapid): generated epochs x slot ranges x filters, gRPC stream output compared with a naive scan of the generator's ground truth, with and without the address index",
-    "level_text": "1..3 generated epochs (adjacent or with gaps, skipped slots, vote / non-vote, failed / successful, legacy / v0 with address-table loaded accounts, blocks near epoch edges) are loaded once without and once with address indexes. StreamBlocks and StreamTransactions are called in-process with generated ranges (inside an epoch, starting or ending on skipped slots, across two epochs, across a missing epoch, end omitted) and filters over a 6-account universe plus an unmentioned account (vote/failed absent/true/false, include/exclude/required subsets, no filter). The streamed sequence must equal the reference scan: every archived block of the range in ascending slot order (restricted by account_include), every archived transaction satisfying the filter in ascending slot and position order with byte-identical payloads, and the same set of transactions with and without the address index. Exploration level.",
-    "level_note": "All generated transactions carry metadata (the failed flag is undefined otherwise); fewer than 100 transactions per account and range (the indexed path asks the address index for 100 entries per account). Epochs without recorded positions are compared per slot as sets. Messages carrying no transaction (placeholder when nothing matched) are ignored.",
+    "level_text": "1..3 generated epochs (adjacent or with gaps, skipped slots, vote / non-vote including transactions of 2..4 instructions with the Vote program at any position, failed / successful, legacy / v0 with address-table loaded accounts, accounts never mentioned in some epochs, blocks near epoch edges) are loaded once without and once with address indexes. StreamBlocks and StreamTransactions are called in-process with generated ranges (inside an epoch, starting or ending on skipped slots, from the last blocks of an epoch to just after the first block of the next, across a missing epoch, end omitted) and filters over a 6-account universe plus an unmentioned account (vote/failed absent/true/false, include/exclude/required subsets, no filter). The streamed sequence must equal the reference scan: every archived block of the range in ascending slot order (restricted by account_include), every archived transaction satisfying the filter in ascending slot and position order with byte-identical payloads, and the same set of transactions with and without the address index. Exploration level.",
+    "level_note": "Reference definition of a vote transaction (quoted in vote.go from the upstream checker): 1-2 signatures, legacy message, exactly one instruction, which invokes the Vote program. All generated transactions carry metadata (the failed flag is undefined otherwise); fewer than 100 transactions per account and range (the indexed path asks the address index for 100 entries per account). Epochs without recorded positions are compared per slot as sets. Messages carrying no transaction (placeholder when nothing matched) are ignored.",
     "rule": ("rapid draws 1..3 epoch specs and 4..14 queries; non-trivial = StreamTransactions query whose range contains >=1 skipped slot and >=2 blocks and whose filter both accepts and rejects a transaction of the range; distinct by case hash"),
     "assumptions": ["reference predicate: a transaction mentions an account if it is among its static keys or its loaded addresses"],
     "units": [
@@ -246,7 +246,7 @@ C09_MONITOR = [
 
 PROPS["C09"] = {
     "technique": "generated concurrent programs (rapid) run as stress schedules with progress/consistency oracles + dynamic lock-order monitoring of single-threaded generated operation lists on a build with an instrumented epoch-set mutex",
-    "level_text": "Stress: rapid generates programs of 2..12 reader goroutines (getSlot, getFirstAvailableBlock, getBlock, getBlockTime, getTransaction, getSignaturesForAddress, getVersion, epoch listing, gRPC GetBlock) and 1..3 writer goroutines (AddEpoch/RemoveEpoch/ReplaceEpoch on volatile epochs with shared Epoch objects; or ReplaceOrAddEpoch/RemoveEpochByConfigFilepath with freshly loaded epochs) at GOMAXPROCS 2/4/16; every goroutine must finish (a 12 s stall with goroutines parked in sync.RWMutex is reported as deadlock with their stacks), every epoch list must be duplicate-free, newest first, a superset of the stable epochs, and every query addressed to a stable epoch must equal the idle server's answer. Monitor: the same operations run single-threaded against a build in which MultiEpoch.mu is replaced (AST rewrite) by an instrumented RW mutex that reports a read acquisition by a goroutine already holding the read lock, or a write acquisition under a read lock - the acquisition orders that sync.RWMutex documents as deadlock-prone - independent of the schedule. Exploration level.",
+    "level_text": "Stress: rapid generates programs of 2..12 reader goroutines (getSlot, getFirstAvailableBlock, getBlock, getBlockTime, getTransaction, getSignaturesForAddress, getVersion, epoch listing, gRPC GetBlock) and 1..3 writer goroutines (AddEpoch/RemoveEpoch/ReplaceEpoch on volatile epochs with shared Epoch objects; or ReplaceOrAddEpoch/RemoveEpochByConfigFilepath with freshly loaded epochs) at GOMAXPROCS 2/4/16, with two stable epochs loaded or with a single one (volatile epochs toggled 200 times per writer operation around it, readers repeating their queries 10..100 times, so that the epoch count passes through 1 while queries run); every goroutine must finish (a 12 s stall with goroutines parked in sync.RWMutex is reported as deadlock with their stacks), every epoch list must be duplicate-free, newest first, a superset of the stable epochs, and every query addressed to a stable epoch must equal the idle server's answer. Monitor: the same operations run single-threaded against a build in which MultiEpoch.mu is replaced (AST rewrite) by an instrumented RW mutex that reports a read acquisition by a goroutine already holding the read lock, or a write acquisition under a read lock - the acquisition orders that sync.RWMutex documents as deadlock-prone - independent of the schedule. Exploration level.",
     "level_note": "Schedules are sampled, not enumerated; the monitor covers the lock acquisitions executed by the generated operations (counted in class lock-acquisitions-observed), not unexecuted call-graph paths. In class B (old epoch closed on replace) readers only issue slot-routed queries to stable epochs and epoch listings.",
     "rule": ("stress: rapid draws readers x ops, writers x ops, GOMAXPROCS, class A/B; non-trivial = >=2 readers, >=1 writer and an epoch-listing operation that overlapped a running writer (measured); monitor: 1..40 ops per list, non-trivial = >=2 ops; distinct by case hash"),
     "assumptions": ["a 12 s stall with goroutines parked in RWMutex.RLock/Lock is a deadlock (each operation takes milliseconds)"],
@@ -258,7 +258,7 @@ PROPS["C09"] = {
 
 PROPS["C12"] = {
     "technique": "structure-aware mutation property testing (rapid) of valid files produced by the real writers, with panic / time / allocation watchdogs; thorough: Go native coverage-guided fuzzing per parser seeded with the valid files",
-    "level_text": "24 parser entry points (the eight IPLD node decoders, multi-frame loading with self links, the CAR reader, CAR sections, the three compact-index readers, the typed index openers, index metadata, sig-exists current and legacy, slot-to-blocktime, linked log, gsfa directory, manifest, transaction-status metadata, first-signature) are driven with mutations of valid inputs built by the real writers: length/count/offset fields overwritten with 0, 1, 12, max and values inconsistent with the file size (1..8 bytes, both byte orders), CBOR item heads replaced by other kinds (list/map/int/bytes/tag/indefinite), truncation, bit flips, appended bytes, tiny and random inputs. A panic, a call that does not return within 20 s, or more than 64 MiB + 256 x len(input) allocated during the call is a violation; returned errors are fine. Exploration level.",
+    "level_text": "24 parser entry points (the eight IPLD node decoders, multi-frame loading with self links, the CAR reader, CAR sections, the three compact-index readers, the typed index openers, index metadata, sig-exists current and legacy, slot-to-blocktime, linked log, gsfa directory, manifest, transaction-status metadata, first-signature) are driven with mutations of valid inputs built by the real writers: length/count/offset fields overwritten with 0, 1, 12, max and values inconsistent with the file size (1..8 bytes, both byte orders), integers at known header fields or aligned positions moved by +-1, +-2, x2, /2 (`nudge`), the key/value metadata of compact indexes re-encoded with one pair changed (`meta`), the decompressed payload of a linked-log record altered (hostile / overlong varints) and recompressed under a correct length prefix (`ll-payload`), CBOR item heads replaced by other kinds (list/map/int/bytes/tag/indefinite), truncation, bit flips, appended bytes, tiny and random inputs. Loaded indexes are queried as the server would (block-time index over its whole epoch, linked-log reads at and beyond the end of the file with the largest 3-byte size). A panic, a call that does not return within 20 s, or more than 64 MiB + 256 x len(input) allocated during the call is a violation; returned errors are fine. The largest allocation seen per target is reported in the evidence (max_alloc_above_256x_input_KiB). Exploration level.",
     "level_note": "Allocation is measured with runtime.MemStats.TotalAlloc deltas around the call in an otherwise idle process. 'Never' is bounded by the case budget; the thorough tier adds native fuzzing.",
     "rule": ("rapid draws target, seed file, mutation kind and positions/values; non-trivial = mutated input that passes the first validation stage of its parser (reported per target as deep:<target>); distinct by input hash"),
     "assumptions": ["valid seeds come from one generated epoch built at process start"],
